@@ -2,10 +2,14 @@
    Mechanism model: Cop.Model.Rng (hand-written transcription of copulas/utils.py set_random_state /
    random_state / validate_random_state and the dataset generators; tied by the differential
    correspondence on the real decorator).  Which functions are protected is GENERATED from the AST
-   of /repo on every run (CopRun.Gen_rngfacts). *)
+   of /repo on every run (CopRun.Gen_rngfacts).
+   Second tie (CopRun.Gen_rng, tools/vf/rnggen.py): the context manager, the decorator, validate_random_state, the
+   set_random_state methods and every dataset generator are TRANSLATED statement by statement from the current source
+   on every run; the C15_bridge_* theorems below prove the translated definitions equal to the hand-written ones of
+   Model.Rng, so the theorems of Spec.RngProofs hold of the generated definitions. *)
 From Coq Require Import ZArith List String Bool Lia.
 From Cop Require Import Model.Rng Spec.RngProofs.
-From CopRun Require Import Gen_rngfacts.
+From CopRun Require Import Gen_rngfacts Gen_rng.
 Import ListNotations.
 Open Scope string_scope.
 
@@ -89,8 +93,191 @@ Theorem C15_undecorated_reproducibility_refuted :
     snd (step w1 (OUndecorated i k)) <> snd (step w2 (OUndecorated i k)).
 Proof. exact undecorated_reproducibility_refuted. Qed.
 
+(* ====================================================================== *)
+(*  Bridges: generated definitions (Gen_rng.v) = Model.Rng                  *)
+(* ====================================================================== *)
+
+Theorem C15_bridge_validate : forall v, gen_validate_random_state v = validate_random_state v.
+Proof. destruct v; reflexivity. Qed.
+
+Ltac split_matches :=
+  repeat match goal with
+         | |- context [match ?x with _ => _ end] => destruct x
+         end.
+
+Theorem C15_bridge_ctx : forall A rs setter (bd : comp A) w,
+  gen_set_random_state rs setter bd w = set_random_state_ctx rs setter bd w.
+Proof.
+  intros. unfold gen_set_random_state, set_random_state_ctx, py_bind, py_try_finally, py_then_keep, py_ret, py_pass,
+    np_random_get_state, np_random_set_state, py_get_state.
+  destruct rs as [r|]; [|reflexivity].
+  destruct (bd (set_global r w)) as [w2 res].
+  destruct (setter (global w2) w2) as [w3 [e|u]]; reflexivity.
+Qed.
+
+Lemma ctx_setter_ext : forall A rs (s1 s2 : rng -> comp unit) (bd : comp A) w,
+  (forall r w', s1 r w' = s2 r w') -> set_random_state_ctx rs s1 bd w = set_random_state_ctx rs s2 bd w.
+Proof. intros. unfold set_random_state_ctx. destruct rs; [|reflexivity]. destruct (bd _). now rewrite H. Qed.
+Lemma ctx_body_ext : forall A rs s (b1 b2 : comp A) w,
+  (forall w', b1 w' = b2 w') -> set_random_state_ctx rs s b1 w = set_random_state_ctx rs s b2 w.
+Proof. intros. unfold set_random_state_ctx. destruct rs; [|reflexivity]. now rewrite H. Qed.
+
+Theorem C15_bridge_model_setter : forall i v w, gen_model_set_random_state i v w = model_set_random_state i v w.
+Proof.
+  intros. unfold gen_model_set_random_state, model_set_random_state, py_bind, py_lift, py_setattr_random_state.
+  rewrite C15_bridge_validate. destruct (validate_random_state v); reflexivity.
+Qed.
+
+Theorem C15_bridge_wrapper : forall A i (bd : comp A) w,
+  gen_random_state_wrapper i bd w = random_state_wrapper i bd w.
+Proof.
+  intros. unfold gen_random_state_wrapper, random_state_wrapper, py_bind, py_getattr_random_state, py_is_none.
+  destruct (get_model w i) as [[r|]|] eqn:E; try reflexivity.
+  rewrite ?E. rewrite C15_bridge_ctx. apply ctx_setter_ext. intros. apply C15_bridge_model_setter.
+Qed.
+
+(* ---------- datasets ---------- *)
+Fixpoint total (l : list nat) : nat :=
+  match l with [] => 0 | a :: t => match t with [] => a | _ => a + total t end end.
+Fixpoint draws (l : list nat) : comp (list rng) :=
+  match l with [] => py_nodraw | a :: t => match t with [] => py_draw a | _ => py_then (py_draw a) (draws t) end end.
+
+Lemma draws_total : forall l w, draws l w = run_body (total l, false) w.
+Proof.
+  induction l as [|a t IH]; intros [[s c] ms].
+  - cbn. unfold set_global. cbn. now rewrite Nat.add_0_r.
+  - destruct t as [|b t']; [reflexivity|].
+    change (draws (a :: b :: t')) with (py_then (py_draw a) (draws (b :: t'))).
+    change (total (a :: b :: t')) with (a + total (b :: t')).
+    unfold py_then, py_bind, py_draw at 1, run_body at 1. cbn [draw fst snd global set_global models].
+    rewrite IH. unfold run_body, py_ret, set_global. cbn.
+    rewrite tokens_from_app. now rewrite Nat.add_assoc.
+Qed.
+
+Lemma py_then_ext : forall (c1 c1' c2 c2' : comp (list rng)) w,
+  (forall w', c1 w' = c1' w') -> (forall w', c2 w' = c2' w') -> py_then c1 c2 w = py_then c1' c2' w.
+Proof.
+  intros. unfold py_then, py_bind. rewrite H. destruct (c1' w) as [w1 [e|t]]; [reflexivity|]. now rewrite H0.
+Qed.
+
+Lemma with_validated_bridge : forall A (seed : seedval) setter (b1 b2 : comp A) w,
+  (forall r w', setter r w' = dummy_fn r w') -> (forall w', b1 w' = b2 w') ->
+  py_bind (py_lift (gen_validate_random_state seed)) (fun rs => gen_set_random_state rs setter b1) w
+  = match validate_random_state seed with
+    | inl e => (w, inl e)
+    | inr rs => set_random_state_ctx rs dummy_fn b2 w
+    end.
+Proof.
+  intros. unfold py_bind, py_lift. rewrite C15_bridge_validate.
+  destruct (validate_random_state seed) as [e|rs]; [reflexivity|].
+  rewrite C15_bridge_ctx. rewrite (ctx_setter_ext _ _ _ _ _ _ H). now apply ctx_body_ext.
+Qed.
+
+Definition ds_entry : Type := (string * nat * list string * ((string -> nat -> nat) -> seedval -> comp (list rng)))%type.
+Definition plain_ok (d : ds_entry) : Prop :=
+  let '(name, nd, calls, f) := d in
+  calls = [] -> forall k seed w, f k seed w = dataset seed (total (map (k name) (seq 0 nd))) w.
+
+Ltac plain_tac f :=
+  intros; unfold f, dataset; apply with_validated_bridge;
+  [ reflexivity | intros; rewrite <- draws_total; reflexivity ].
+
+Theorem C15_bridge_datasets_plain : Forall plain_ok gen_datasets.
+Proof.
+  unfold gen_datasets.
+  repeat (apply Forall_cons; [ intros H; try discriminate H; clear H;
+    match goal with |- forall k seed w, ?f k seed w = _ => plain_tac f end | ]).
+  apply Forall_nil.
+Qed.
+
+Theorem C15_bridge_datasets_census :
+  map (fun d : ds_entry => let '(name, _, calls, _) := d in (name, calls)) gen_datasets =
+  [ ("sample_bivariate_age_income", []); ("sample_trivariate_xyz", []); ("sample_univariate_bernoulli", []);
+    ("sample_univariate_bimodal", ["sample_univariate_bernoulli"]);
+    ("sample_univariate_uniform", []); ("sample_univariate_normal", []); ("sample_univariate_degenerate", []);
+    ("sample_univariate_exponential", []); ("sample_univariate_beta", []);
+    ("sample_univariates", ["sample_univariate_bernoulli"; "sample_univariate_bimodal"; "sample_univariate_uniform";
+                            "sample_univariate_normal"; "sample_univariate_degenerate"; "sample_univariate_exponential";
+                            "sample_univariate_beta"]) ].
+Proof. reflexivity. Qed.
+
+Lemma plain_lookup : forall name nd f, In (name, nd, [], f) gen_datasets ->
+  forall k seed w, f k seed w = dataset seed (total (map (k name) (seq 0 nd))) w.
+Proof.
+  intros name nd f H. pose proof C15_bridge_datasets_plain as P. rewrite Forall_forall in P.
+  exact (P _ H eq_refl).
+Qed.
+
+Theorem C15_bridge_datasets_nested : forall k seed w,
+  gen_sample_univariate_bimodal k seed w =
+  nested_dataset seed (k "sample_univariate_bernoulli" 0)
+                      (k "sample_univariate_bimodal" 0 + k "sample_univariate_bimodal" 1) w.
+Proof.
+  intros. unfold gen_sample_univariate_bimodal, nested_dataset. apply with_validated_bridge; [reflexivity|].
+  intros w1. unfold py_then at 1. unfold py_bind.
+  rewrite (plain_lookup "sample_univariate_bernoulli" 1 gen_sample_univariate_bernoulli) by (cbn; tauto).
+  cbn [total map seq].
+  destruct (dataset seed (k "sample_univariate_bernoulli" 0) w1) as [w2 [e|t1]]; [reflexivity|].
+  change (py_then (py_draw (k "sample_univariate_bimodal" 0)) (py_draw (k "sample_univariate_bimodal" 1)))
+    with (draws [k "sample_univariate_bimodal" 0; k "sample_univariate_bimodal" 1]).
+  rewrite draws_total. reflexivity.
+Qed.
+
+Theorem C15_bridge_datasets_univariates : forall k seed w,
+  gen_sample_univariates k seed w =
+  py_then (dataset seed (k "sample_univariate_bernoulli" 0)) (
+  py_then (nested_dataset seed (k "sample_univariate_bernoulli" 0)
+                          (k "sample_univariate_bimodal" 0 + k "sample_univariate_bimodal" 1)) (
+  py_then (dataset seed (k "sample_univariate_uniform" 0)) (
+  py_then (dataset seed (k "sample_univariate_normal" 0)) (
+  py_then (dataset seed (k "sample_univariate_degenerate" 0)) (
+  py_then (dataset seed (k "sample_univariate_exponential" 0)) (
+  dataset seed (k "sample_univariate_beta" 0))))))) w.
+Proof.
+  intros. unfold gen_sample_univariates.
+  repeat (apply py_then_ext; intros);
+    first [ apply C15_bridge_datasets_nested
+          | match goal with |- ?f k seed _ = dataset seed (k ?name 0) _ =>
+              exact (plain_lookup name 1 f ltac:(cbn; tauto) k seed _) end ].
+Qed.
+
+Theorem C15_bridge_datasets :
+  Forall plain_ok gen_datasets /\
+  (forall k seed w, gen_sample_univariate_bimodal k seed w =
+     nested_dataset seed (k "sample_univariate_bernoulli" 0)
+                         (k "sample_univariate_bimodal" 0 + k "sample_univariate_bimodal" 1) w) /\
+  (forall r w, gen__dummy_fn r w = dummy_fn r w).
+Proof. split; [exact C15_bridge_datasets_plain|]. split; [exact C15_bridge_datasets_nested | reflexivity]. Qed.
+
+(* ---------- the theorems of Spec.RngProofs transferred to the generated definitions ---------- *)
+Lemma dataset_fst : forall seed n w, fst (dataset seed n w) = w.
+Proof.
+  intros. pose proof (dataset_preserves_world w seed n) as H. unfold step in H.
+  destruct (dataset seed n w) as [w' r]. exact H.
+Qed.
+Theorem C15_gen_datasets_preserve_world :
+  Forall (fun d : ds_entry => let '(_, _, calls, f) := d in calls = [] -> forall k seed w, fst (f k seed w) = w) gen_datasets.
+Proof.
+  pose proof C15_bridge_datasets_plain as P. rewrite Forall_forall in *. intros [[[name nd] calls] f] Hin Hc k seed w.
+  rewrite (P _ Hin Hc). apply dataset_fst.
+Qed.
+Theorem C15_gen_ctx_preserves_global : forall A rs setter (bd : comp A) w,
+  setter_ok setter -> global (fst (gen_set_random_state rs setter bd w)) = global w.
+Proof. intros. rewrite C15_bridge_ctx. now apply ctx_preserves_global. Qed.
+Theorem C15_gen_wrapper_seeded_result : forall A i (bd : comp A) w st,
+  get_model w i = Some (Some st) ->
+  snd (gen_random_state_wrapper i bd w) = snd (bd (set_global st w)) /\
+  global (fst (gen_random_state_wrapper i bd w)) = global w.
+Proof.
+  intros. rewrite C15_bridge_wrapper. split; [eapply wrapper_seeded_result | eapply wrapper_seeded_preserves_global]; eauto.
+Qed.
+
 Print Assumptions C15_global_preserved.
 Print Assumptions C15_noninterference.
 Print Assumptions C15_advance.
 Print Assumptions C15_dataset_deterministic.
 Print Assumptions C15_all_samplers_protected.
+Print Assumptions C15_bridge_ctx.
+Print Assumptions C15_bridge_wrapper.
+Print Assumptions C15_bridge_validate.
+Print Assumptions C15_bridge_datasets.
